@@ -5,7 +5,7 @@
 From QV Require Import Base.Res Base.Octets Gen.ZoneConsts Model.ZoneTree Spec.ZoneLookupS
   Model.RdataBuf Proofs.ZoneRrsetP Proofs.ZoneTopP Proofs.ZoneIterP Proofs.ZoneIterSmP Proofs.ZoneStoreP Proofs.RdataBufP
   Model.ZoneReal Spec.ZoneRealS Proofs.ZoneRealP.
-From QV Require Model.RdataM Spec.RdataEqS.
+From QV Require Model.RdataM Spec.RdataEqS Model.RdataSetM Proofs.RdataSetP.
 
 (* the shared runner (Extract/ExZone.v) also extracts the validation model: keep it in this cone so
    that `make Props/...vo` rebuilds everything the extraction loads *)
@@ -73,6 +73,25 @@ Theorem c20_rrset_is_c19_set : forall cls R m ty rs,
   rs_type rs = ty /\
   rs_rdatas rs = RdataEqS.nodup_by (RdataEqS.spec_equals cls ty) [] (map r_rdata (records_at R m ty)).
 Proof. exact spec_rrset_nodup_by. Qed.
+
+(* the zone model keeps an RdataSetOwned as the list of its RDATAs; for the real equality that list-level
+   insert IS C19's octet-buffer model of RdataSetOwned::insert (Model/RdataSetM.v: Vec<u8> with u16 length
+   prefixes in either byte order, the loop over the members calling Rdata::equals with early exit): on a
+   buffer holding [kept], insert of [r] never fails, returns the encoding of [rdataset_insert req_real kept r]
+   and the flag "was inserted"; iterating that buffer yields the list back.  (RDATA of at most 65535 octets:
+   the invariant of the Rdata type.) *)
+Theorem c20_rdataset_real_buffer : forall be c t kept r,
+  Forall RdataSetP.small kept -> Forall wf_bytes kept -> RdataSetP.small r -> wf_bytes r ->
+  RdataSetM.set_insert be c t (RdataSetP.inner_of be kept) r =
+    Ok (RdataSetP.inner_of be (rdataset_insert req_real c t kept r),
+        negb (existsb (fun ex => req_real c t r ex) kept)) /\
+  RdataSetM.set_iter be (RdataSetP.inner_of be (rdataset_insert req_real c t kept r)) =
+    rdataset_insert req_real c t kept r.
+Proof.
+  intros be c t kept r Hs Hw Hr Hwr. split.
+  - apply rdataset_insert_is_buffer; assumption.
+  - apply rdataset_insert_buffer_iter; assumption.
+Qed.
 
 (* every RDATA stored in the zone is an octet string again (so the hypotheses of C19 hold for whatever
    is compared next) *)
@@ -229,6 +248,7 @@ Print Assumptions c20_iter_by_rrset_real.
 Print Assumptions c20_iter_names_spelled_real.
 Print Assumptions c20_soa_ns_real.
 Print Assumptions c20_rrset_is_c19_set.
+Print Assumptions c20_rdataset_real_buffer.
 Print Assumptions c20_stored_rdata_real.
 Print Assumptions c20_add_result.
 Print Assumptions c20_add_ok_iff.
